@@ -26,7 +26,8 @@ CInit ==
     lastEv |-> EmptyFn,      \* <<task, event id>> -> last k seen
     lastAny |-> EmptyFn,     \* task -> last k seen of any event id
     nextItem |-> EmptyFn,    \* channel cookie -> next item number the consumer must see
-    sentItems |-> EmptyFn,   \* channel token of the producer -> items started
+    chanOf |-> EmptyFn,      \* producer's channel token -> channel cookie
+    sentOk |-> EmptyFn,      \* channel cookie -> number of items the producer handed over successfully
     open |-> {},             \* ids of API operations that have not returned
     faulty |-> {},           \* clients whose transport was made to fail (C15 driver)
     cause |-> "",            \* termination cause injected by the fault-sweep driver ("" = none)
@@ -77,6 +78,17 @@ OnApi(S, r) ==
                want == IF k \in DOMAIN S1.nextItem THEN S1.nextItem[k] ELSE 1 IN
            IF r.d.k # want THEN Bad(S1, "C05", "a channel item was lost, duplicated or reordered")
            ELSE [S1 EXCEPT !.nextItem = Put(@, k, want + 1)]
+      [] r.op = "send_item" /\ r.res = "ok" /\ "chan" \in DOMAIN r.d /\ r.d.chan \in DOMAIN S1.chanOf ->
+           LET k == S1.chanOf[r.d.chan] IN
+           [S1 EXCEPT !.sentOk = Put(@, k, (IF k \in DOMAIN S1.sentOk THEN S1.sentOk[k] ELSE 0) + 1)]
+      [] r.op = "next_item" /\ r.res = "end" ->
+           \* C05 (client level, completeness): the stream ended because the sender went away; every
+           \* item it handed over successfully must have arrived before
+           LET k == r.d.cookie
+               got == IF k \in DOMAIN S1.nextItem THEN S1.nextItem[k] - 1 ELSE 0
+               sent == IF k \in DOMAIN S1.sentOk THEN S1.sentOk[k] ELSE 0 IN
+           IF got < sent THEN Bad(S1, "C05", "items the sender handed over successfully never reached the receiver")
+           ELSE S1
       [] r.op = "events" /\ r.d.seen < r.d.want ->
            \* the stream ended (service destroyed): everything sent before must have arrived
            IF Lost(S1, r.task, r.d.srv, r.d.all, r.d.sub, 0) THEN Bad(S1, "C04", "an event emitted while the subscription was active was not delivered before the stream ended")
@@ -115,7 +127,8 @@ ViewCheck(S, r) ==
      ELSE S
 
 OnFact(S, r) ==
-  CASE r.what = "served" -> [S EXCEPT !.served = Put(@, r.d.t, [n |-> r.d.n, how |-> r.d.how])]
+  CASE r.what = "producer" -> [S EXCEPT !.chanOf = Put(@, r.d.chan, r.d.cookie)]
+    [] r.what = "served" -> [S EXCEPT !.served = Put(@, r.d.t, [n |-> r.d.n, how |-> r.d.how])]
     [] r.what = "emit" -> [S EXCEPT !.emitted = @ \cup {<<r.d.srv, r.d.ev, r.d.k>>}]
     [] r.what = "event" ->
          LET key == <<r.task, r.d.ev>>
